@@ -614,7 +614,7 @@ func valuesCaseFlags(m *Model, rep *Report, r *Rng, seed uint64, idx int, tmp st
 	opts := values.Options{}
 	q := map[string]any{"op": "mergeValues"}
 	var files, jsons []any
-	nf := r.Intn(3)
+	nf := r.Intn(4)
 	for i := 0; i < nf; i++ {
 		t := genTree(r, 0, valKeys)
 		b, _ := json.Marshal(t)
@@ -622,6 +622,13 @@ func valuesCaseFlags(m *Model, rep *Report, r *Rng, seed uint64, idx int, tmp st
 		os.WriteFile(p, b, 0o644)
 		opts.ValueFiles = append(opts.ValueFiles, p)
 		files = append(files, t)
+	}
+	if nf >= 2 && r.Chance(30) {
+		// a file named again later on the command line (-f base -f env -f base): it is merged again, last
+		k := r.Intn(nf - 1)
+		opts.ValueFiles = append(opts.ValueFiles, opts.ValueFiles[k])
+		files = append(files, files[k])
+		rep.H("flags:file-repeated")
 	}
 	if r.Chance(30) {
 		t := genTree(r, 0, valKeys)
